@@ -369,13 +369,16 @@ def huge_windows(res, ctx, rng):
     filler, then another call B starts and ends, then A ends.  Built from repeated record objects (H.stretched_events),
     so the general history checker (which identifies events by identity) is replaced by a linear walk: B's END delivers
     exactly [B.START, B.END], A's END delivers every record of the stream, in order, by identity."""
-    rungs = [n for i, n in enumerate(ctx.pick(H.SCALE_RUNGS_QUICK, H.SCALE_RUNGS_THOROUGH)) if ctx.mine(i) and n > 200000]
-    for n in rungs:
+    rungs = [(n, False) for i, n in enumerate(ctx.pick(H.SCALE_RUNGS_QUICK, H.SCALE_RUNGS_THOROUGH)) if ctx.mine(i) and n > 200000]
+    # ... and nesting width: n windows open at once on the thread (n STARTs of distinct ids that never end); quadratic,
+    # so the width rungs end at 5000
+    rungs += [(n, True) for i, n in enumerate(ctx.pick(H.SCALE_RUNGS_QUICK, H.SCALE_RUNGS_THOROUGH)) if ctx.mine(i + 3) and n <= 5000]
+    for n, wide in rungs:
         a, b = rng.sample(('BSC_read', 'BSC_write', 'BSC_getpid', 'BSC_sys_close', 'BSC_fsync'), 2)
         seq = [H.A(a, H.START, (3, 0x1000, 64, 0)), H.A(b, H.START, (4, 0x2000, 32, 0)), H.A(b, H.END, (0, 32, 0, 0)),
                H.A(a, H.END, (0, 64, 0, 0))]
-        events, _ = H.stretched_events(seq, 1, n, rng, tid=5)
-        case = {'huge_window': n, 'outer': a, 'inner': b}
+        events, _ = H.stretched_events(seq, 1, n, rng, tid=5, wide=wide)
+        case = {'huge_window': n, 'outer': a, 'inner': b, 'wide': wide}
         parser = ev.new_parser()
         got = []
         InvariantLog.paused = True
@@ -410,6 +413,26 @@ def huge_windows(res, ctx, rng):
                           f'{len(events)} of its thread between its START and END (first difference at position {j})', case)
             return
         res.count('windows_checked', 2)
+
+
+def foreign_naming_pairs(res, ctx, rng):
+    """Records of another thread whose argument words name the thread of an open window (or its process): every ordered
+    pair of the kernel's announcements and scheduler records.  They are not in that thread's stream, so its window is
+    delivered as if they were not there."""
+    n = 0
+    for x in H.NAMING:
+        for y in H.NAMING:
+            n += 1
+            if not ctx.mine(n):
+                continue
+            k = n % 2
+            outer = rng.choice(('BSC_read', 'BSC_write', 'BSC_open', 'BSC_sys_close'))
+            items = [(5, H.A(outer, H.START, domain.gen_words(rng, outer, 'S'))),
+                     (6, H.A(x, H.NONE, H.naming_words(rng, x, 5, 100, k))), (5, H.A('MACH_SCHED', H.NONE, H.naming_words(rng, 'MACH_SCHED', 9, 9))),
+                     (6, H.A(y, H.NONE, H.naming_words(rng, y, 5, 100, k))),
+                     (5, H.A(outer, H.END, [0] + domain.gen_words(rng, outer, 'E')[1:]))]
+            check_history(res, H.materialize(items), f'{x} then {y} of another thread naming the window\'s thread')
+            res.count('foreign_naming_pair_histories')
 
 
 def front_end_sequences(res, ctx, rng):
@@ -489,6 +512,7 @@ def run(ctx):
     random_histories(res, ctx, rng)
     long_windows(res, ctx, rng)
     huge_windows(res, ctx, rng)
+    foreign_naming_pairs(res, ctx, rng)
     front_end_sequences(res, ctx, rng)
     res.count('invariant_evaluations', InvariantLog.evaluations)
     res.notes['invariant_backend'] = 'icontract.invariant on TracesParser' if monitors.HAVE_ICONTRACT else 'absent'
@@ -505,7 +529,7 @@ def run(ctx):
                         'words are in-domain so that the real decoders are total on the windows they receive']
     for cls in ('class_unmatched_end', 'class_reopened_start', 'class_nested', 'class_crossing',
                 'class_same_code_two_threads', 'class_both_domains_open', 'class_qualifier_all', 'windows_checked',
-                'singles_checked', 'long_window_histories', 'huge_windows'):
+                'singles_checked', 'long_window_histories', 'huge_windows', 'foreign_naming_pair_histories'):
         res.require(cls)
     if monitors.HAVE_ICONTRACT:
         res.require('invariant_evaluations')
